@@ -76,6 +76,20 @@ Theorem C11_table_accounted :
 Proof. exact table_accounted_ok. Qed.
 Print Assumptions C11_table_accounted.
 
+(* Beyond the named fault classes: every goroutine the library starts in the anchor files
+   has an effective recover on its entry function — except the listed ones, for which the
+   table shows there is none (C11_goroutine_entries_refuted is exact).  The six client loops
+   and the mock goroutine are the ones a fault class reaches (refuted cells below). *)
+Theorem C11_goroutine_entries_partial : forall g, In g known_goroutines -> unprotected g = false ->
+  entry_protected table (snd g) = true.
+Proof. exact goroutine_entries_partial. Qed.
+Print Assumptions C11_goroutine_entries_partial.
+
+Theorem C11_goroutine_entries_refuted : forall g, In g unprotected_goroutines ->
+  existsb (goroutine_eqb g) known_goroutines = true /\ entry_protected table (snd g) = false.
+Proof. exact goroutine_entries_refuted. Qed.
+Print Assumptions C11_goroutine_entries_refuted.
+
 (* ------------------------------------------------------------------ the property *)
 
 (* Every fault cell other than the refuted ones below: the effect is an error for that call
@@ -198,3 +212,10 @@ Proof. vm_compute. split; reflexivity. Qed.
 
 Example cell_counts : length cells = 130%nat /\ length known_escapes = 8%nat.
 Proof. vm_compute. split; reflexivity. Qed.
+
+(* the guard of C11_goroutine_entries_partial is met by the goroutines that face the peers *)
+Example protected_goroutines_exist :
+  let g := ("socket.Handler.Serve", "socket.Handler.receive") in
+  In g known_goroutines /\ unprotected g = false /\ entry_protected table (snd g) = true /\
+  length known_goroutines = 21%nat /\ length unprotected_goroutines = 10%nat.
+Proof. vm_compute. repeat split; try reflexivity. do 2 right. left. reflexivity. Qed.
